@@ -72,6 +72,8 @@ class P(Prop):
     id = "C04"
     design_ref = "DESIGN.md section 5, C04 and appendix A.5"
     M = "TracklibVerif.Props.C04"
+    MS = "TracklibVerif.Props.C04Slice"
+    MM = "TracklibVerif.Props.C04More"
     theorems = [
         (M, "TV.C04.dichotomy_in_range", "T1: for any timestamps and any first step 2^j with 2*2^j <= N the search loop, run with an access that fails on every index outside 0..N-1, ends within fuel j+N+3 at an index 0..N-1"),
         (M, "TV.C04.insertionIndex_no_index_error", "T1 whole function: on every list __getInsertionIndex returns an index 0..N without reading outside 0..N-1 (no IndexError, no negative wrap); the model as run gives the same"),
@@ -124,25 +126,56 @@ class P(Prop):
         (M, "TV.C04.sortRadix_sorted", "sortRadix: if the lexicographic order of the fields implies the order of the timestamps, the result is non-decreasing in time and a permutation of the records"),
         (M, "TV.C04.lex_stamps", "for two well-formed timestamps (C03's WFs) the lexicographic order of the digits sortRadix reads is the order of the epoch instants (through C03's ltS_iff)"),
         (M, "TV.C04.sortRadix_stamps", "for EVERY track of well-formed timestamps (C03's WFs, no bound on the year) sortRadix is a stable sort by time: no exception, a permutation, non-decreasing epoch milliseconds, equal instants keep their order"),
+        # ---- slices with a negative step; the boundary of the oracle's domain (Props/C04Slice.lean)
+        (MS, "TV.C04.getitemSlice_neg_spec", "track[a:b:c], c <= -1, EVERY a, b (absent / negative / beyond the ends): with (s, e) the bounds as slice.indices adjusts them (absent start = size-1, absent stop = -1, x >= 0 -> min(x, size-1), x < 0 -> max(x+size, -1)) the result is exactly the observations at s, s-|c|, s-2|c|, ... > e in this reversed order (= every |c|-th of reversed(track[e+1:s+1])), table carried"),
+        (MS, "TV.C04.getitemSlice_reversed", "track[::-1] = all the observations, last first, table carried"),
+        (MS, "TV.C04.decimateStep_neg_spec", "track % (-d) = track[::-d]: the observations at size-1, size-1-d, ..., last first"),
+        (MS, "TV.C04.getitemSlice_raises_iff", "track[a:b:c] raises (ValueError) exactly when c = 0"),
+        (MS, "TV.C04.decimateStep_raises_iff", "track % n raises (ValueError) exactly when n = 0"),
+        (MS, "TV.C04.decimatePattern_raises_iff", "track % pattern raises (ZeroDivisionError) exactly for the empty pattern on a non-empty track; on the empty track the result is the empty track with the table"),
+        (MS, "TV.C04.extract_total", "extract(a,b), EVERY integers: IndexError exactly when a <= b and (a < -size or b >= size); otherwise b+1-a observations, the i-th being track[a+i] with Python indexing (a negative a wraps around the end), table carried"),
+        (MS, "TV.C04.dropFirst_neg", "track > -k keeps the LAST k observations (all when k >= size); never raises"),
+        (MS, "TV.C04.dropLast_neg", "track < n with n <= 0 returns all the observations; never raises"),
+        (MS, "TV.C04.getitemInt_raises_iff", "track[i] raises IndexError exactly when i >= size or i < -size"),
+        (MS, "TV.C04.removeObs_total", "removeObs(i): -size <= i < 0 removes the observation size+i (1 returned); i >= size or i < -size raises IndexError and removes nothing"),
+        (MS, "TV.C04.removeEnds_empty", "removeFirstObs / removeLastObs on the empty track raise IndexError"),
+        (MS, "TV.C04.popObs_total", "popObs(i) outside -size..size-1 raises IndexError and removes nothing; -size <= i < 0 returns and removes the observation size+i"),
+        (MS, "TV.C04.insertAt_total", "insertObs(obs, i), EVERY integer i: never raises, the observation goes to the position i clamped as list.insert does (i > size -> size, i < 0 -> max(0, size+i)), the others keep their order"),
+        (MS, "TV.C04.removeByIdx_index_error", "removeObsList(distinct indices whose largest is >= size): IndexError at the first deletion, nothing removed"),
+        (MS, "TV.C04.extractSpanTrack_empty", "extractSpanTime(empty track) raises IndexError"),
+        # ---- the remaining list operations (Model/SeqMore.lean, Props/C04More.lean)
+        (MM, "TV.C04.reverse_spec", "reverse() = all the observations, last first, with the source's table (= track[::-1]); every observation reads what it read in the source"),
+        (MM, "TV.C04.reverse_reverse", "reversing twice gives the track back"),
+        (MM, "TV.C04.makeOdd_makeEven_spec", "makeOdd: IndexError exactly on the empty track, otherwise a prefix of odd size (the last observation dropped iff the size was even); makeEven never raises: a prefix of even size"),
+        (MM, "TV.C04.setObs_spec", "setObs(i, obs) / track[i] = obs: a valid i (negative from the end) replaces exactly that position, every other position and the size unchanged; IndexError exactly when i >= size or i < -size"),
+        (MM, "TV.C04.firstLast_spec", "getFirstObs / getLastObs = first / last observation; IndexError on the empty track"),
+        (MM, "TV.C04.splitEven_spec", "track / number (number >= 1, N = size div number): number segments, the i-th exactly the observations i*N .. i*N+N-1 with the source's table (Carries); together the first number*N observations; the last size mod number observations are in no segment"),
+        (MM, "TV.C04.splitEven_boundary", "track / 0 raises ZeroDivisionError; a negative number gives no segment"),
+        (MM, "TV.C04.removeByTimes_spec", "removeObsList(timestamps): what is left is a sub-sequence of the old observations, the number returned is the number removed; with distinct listed timestamps on a track of distinct timestamps exactly the observations whose timestamp is not listed are left"),
+        (MM, "TV.C04.removeByTimes_refuses_duplicates", "removeObsList with a repeated timestamp removes nothing and returns 0"),
     ]
     partial = []
     open_statements = [
         "'without modifying the source track' cannot be stated about a purely functional model (observations are values, tracks share none): it is checked on the real code by the oracle — every track of the pool is dumped after every operation of a session, and a feature created afterwards on one track must not appear in another's table",
-        "track[a:b:c] with a NEGATIVE step is modelled (reversed walk) and compared with the code, not covered by a theorem; sortRadix on a timestamp with a non-integer ms (TypeError) is outside the model",
+        "sortRadix on a timestamp with a non-integer ms (TypeError) is outside the model",
+        "CPython's slice.indices (PySlice_AdjustIndices) is a modelled contract (sliceBounds / sliceLen): getitemSlice_spec / getitemSlice_neg_spec are about the model's adjustment; the 'sliceidx' stream compares it with slice(a,b,c).indices(n) and len(range(...)) for every a, b in None, -n-3..n+3, 9 steps, n <= 8, and on random lengths up to 2^39",
+        "(int)(size / number) in track / number is a float division: modelled as the integer quotient (exact below 2^53)",
         "(int)(math.log(N)/math.log(2)) = floor(log2 N) is a float computation outside the theorems: T1/T2 hold for any first step 2^j with 2*2^j <= N; the 'ilog' stream checks the expression for every N <= 2^16 (2^21 thorough) and around every 2^k, k < 40",
-        "arguments with no designated observation (negative indices / counts, index >= size, zero step, empty pattern) are modelled and compared with the code but are outside the property's oracle",
+        "arguments with no designated observation (negative indices / counts, index >= size, zero step, empty pattern) stay outside the property's ORACLE; what the code does there is now proved of the model operator by operator (Props/C04Slice.lean: which arguments raise, which clamped / wrapped selection the others make). Still only modelled and compared, without a theorem: removeObsList with a NEGATIVE index in a list of several (the deletions done before the IndexError stay done), a track holding the same observation twice",
     ]
     modelled = ("Track.__getInsertionIndex (dichotomy + two fix-up loops), insertObs (with and without index) / insertObsInChronoOrder / addObs, "
                 "sort (np.argsort = trusted call with the contract 'sorting permutation'), sortRadix (the five fixed bucket passes and the year pass over min..max year of the track, on positions), "
                 "removeObsList/__removeObsListById/__removeObsById, removeObs / removeFirstObs / removeLastObs / popObs, extract, "
                 "extractSpanTime (two instants or a track), __add__, __mod__ (int and list), __gt__/__lt__ with an integer, "
-                "__getitem__ (integer, slice with CPython's index adjustment, (name, i) / (i, name), name), __transmitAF; the feature table "
+                "__getitem__ (integer, slice with CPython's index adjustment, (name, i) / (i, name), name), __setitem__ with an integer / setObs, reverse, makeOdd / makeEven, "
+                "getFirstObs / getLastObs, __truediv__ (even split into a TrackCollection), removeObsList with ObsTimes (__removeObsListByTimestamp / __removeObsByTimestamp), __transmitAF; the feature table "
                 "__analyticalFeaturesDico as (name, column) pairs with getObsAnalyticalFeature / getAnalyticalFeature / "
                 "createAnalyticalFeature (list or scalar) / removeAnalyticalFeature on non-reserved names; an interpreter applying these "
                 "operations in sequence to a pool of tracks. Timestamps as integers (C03 proves the field-wise order is the epoch order)")
     trusted = ["sessions: a new observation's feature list is laid out by the harness following getListAnalyticalFeatures() (column = rank), as a caller has to",
                "numpy argsort on an object array: only 'returns a sorting permutation' is assumed (it is not stable for ties); "
-               "CPython list.insert / del / slices / negative indices modelled as documented",
+               "CPython list.insert / del / pop / item assignment / slices (PySlice_AdjustIndices) / negative indices modelled as documented; "
+               "copy.deepcopy in reverse() = same records; list.sort on ObsTime objects = order of the instants (C03)",
                "(int)(math.log(N)/math.log(2)) modelled as floor(log2 N); the theorems hold for any first step 2^j with 2*2^j <= N"]
     rule = ("every track of size 0..6 (0..7 thorough) over the time values {1,3,5,7} x every instant 0..8 (before / equal / between / after) for "
             "insertion and for sort; every sorted track of sizes 0..70 x every instant for the insertion index; random sorted tracks with ties of "
@@ -157,6 +190,8 @@ class P(Prop):
             "-n-2..n+2 on sizes 0..4; every pair of histories x '+' (also with an empty operand that carries a table); every history x every operator followed "
             "by a second operator; 4000 (40000 thorough) random chains. sortRadix: pairs later in one field and earlier in every / one less significant field, "
             "random tracks of 1..40 timestamps (years 1..2500, on both sides of 1970..2069 in one track too). "
+            "reverse / makeOdd / makeEven / getFirstObs / getLastObs, setObs(i) and track[i] = obs for i in -n-2..n+2, track / k for k in -2..n+3, removeObsList(timestamps) for every list of <= 2 instants 0..8, on sizes 0..6, "
+            "and 300 (3000) random larger ones; slice.indices against the model's bounds (every a, b in None, -n-3..n+3 x 9 steps, n <= 8; random lengths up to 2^39). "
             "non-trivial = a track has at least 2 observations (so a loop of the operation runs)")
 
     # ---------------------------------------------------------------- setup / construction
@@ -236,7 +271,10 @@ class P(Prop):
                 "one-operation sessions on sizes 0..4: track[a:b:c] for a, b in None, -n-1..n+1 and c in None, 1, 2, 3, -1, -2, 0; track[i], removeObs(i), popObs(i), "
                 "insertObs(obs, i) (3 instants), track[name, i] / track[i, name] / getObsAnalyticalFeature for 3 names, for every i in -n-2..n+2; track[name]; "
                 "removeFirstObs, removeLastObs, addObs; extractSpanTime(track) for every other track of size 0..2 over {1,3,5,7}",
-                "every ordered pair of the 11 feature histories x '+' (two size pairs), the sum fed to a second operator and to '+' again, and '+' with an empty operand carrying a table"]
+                "every ordered pair of the 11 feature histories x '+' (two size pairs), the sum fed to a second operator and to '+' again, and '+' with an empty operand carrying a table",
+                "reverse, makeOdd, makeEven, getFirstObs, getLastObs; setObs(i, obs) and track[i] = obs for i in -n-2..n+2; track / k for k in -2..n+3; "
+                "removeObsList(timestamps) for every list of 0..2 instants over 0..8; on sizes 0..6",
+                "slice(a, b, c).indices(n) and the slice length for every a, b in None, -n-3..n+3, c in +-1, +-2, +-3, +-5, 0, n in 0..8, against the model's sliceBounds / sliceLen"]
 
     def cases(self, rng, tier):
         out = []
@@ -331,6 +369,7 @@ class P(Prop):
             else:
                 c["t1"], c["t2"] = rng.randrange(-1, 13), rng.randrange(-1, 13)
             out.append(c)
+        out += self.more_cases(rng, tier)
         out += self.session_cases(rng, tier)
         # the sortRadix cases are slow (the code allocates 60000 buckets per call): spread them over the engine's shards
         rad = self.radix_cases(rng, tier)
@@ -339,6 +378,50 @@ class P(Prop):
             out.insert(min(len(out), (i + 1) * gap + i), c)
         return out
 
+
+    # ---------------------------------------------------------------- the remaining list operations, slice.indices
+    MORE_KINDS = ("reverse", "makeodd", "makeeven", "setobs", "first", "last", "split", "removets")
+
+    def more_cases(self, rng, tier):
+        out = []
+        F = ["f"]
+        for n in range(0, 7):
+            for times in (list(range(1, 2 * n + 1, 2)), [rng.choice(V4) for _ in range(n)]):
+                names = rng.choice([[], F, ["f", "g"]])
+                for k in ("reverse", "makeodd", "makeeven", "first", "last"):
+                    out.append({"kind": k, "times": times, "names": names})
+                for i in range(-n - 2, n + 3):
+                    for form in ("setObs", "item"):
+                        out.append({"kind": "setobs", "times": times, "names": names, "i": i, "ts": rng.randrange(9), "form": form})
+                for number in range(-2, n + 4):
+                    out.append({"kind": "split", "times": times, "names": names, "n": number})
+                for L in range(0, 3):
+                    for ts in itertools.product(range(0, 9), repeat=L):
+                        out.append({"kind": "removets", "times": times, "names": names, "ts": list(ts)})
+        for _ in range(300 if tier == "quick" else 3000):
+            n = rng.choice([rng.randrange(7, 40), 2 ** rng.randrange(3, 7), 2 ** rng.randrange(3, 7) + 1])
+            times = [rng.randrange(12) for _ in range(n)]
+            names = rng.choice([[], F, ["f", "g"]])
+            k = rng.choice(self.MORE_KINDS)
+            c = {"kind": k, "times": times, "names": names}
+            if k == "setobs":
+                c.update(i=rng.randrange(-n - 1, n + 1), ts=rng.randrange(12), form=rng.choice(["setObs", "item"]))
+            elif k == "split":
+                c["n"] = rng.randrange(1, n + 3)
+            elif k == "removets":
+                c["ts"] = rng.sample(range(-1, 13), rng.randrange(0, 6))
+            out.append(c)
+        # ---- CPython's slice.indices / len(range(...)) against the model's sliceBounds / sliceLen (the contract of pySlice)
+        for n in range(0, 9):
+            rg = [None] + list(range(-n - 3, n + 4))
+            for a in rg:
+                out.append({"kind": "sliceidx", "times": [], "len": n, "args": [[a, b, c] for b in rg for c in (1, 2, 3, 5, -1, -2, -3, -5, 0)]})
+        for _ in range(60 if tier == "quick" else 600):
+            n = rng.choice([rng.randrange(0, 50), rng.randrange(50, 10 ** 6), 2 ** rng.randrange(1, 40)])
+            B = lambda: rng.choice([None, rng.randrange(-2 * n - 2, 2 * n + 3), rng.choice([-n - 1, -n, -n + 1, -1, 0, 1, n - 1, n, n + 1])])
+            C = lambda: rng.choice([1, -1, 2, -2, rng.randrange(1, n + 3), -rng.randrange(1, n + 3), 0])
+            out.append({"kind": "sliceidx", "times": [], "len": n, "args": [[B(), B(), C()] for _ in range(100)]})
+        return out
 
     # ---------------------------------------------------------------- session generators
     HISTS = [[], [["c", "f"]], [["c", "f"], ["c", "g"]], [["c", "g"], ["c", "f"]],
@@ -593,7 +676,7 @@ class P(Prop):
             return any(len(t["times"]) >= 2 for t in case["tracks"]) and bool(case["ops"])
         if case["kind"] == "radix":
             return len(case["fields"]) >= 2
-        return len(case["times"]) >= 2 or case["kind"] == "ilog"
+        return len(case["times"]) >= 2 or case["kind"] in ("ilog", "sliceidx")
 
     # ---------------------------------------------------------------- implementation
     def impl(self, case):
@@ -606,6 +689,16 @@ class P(Prop):
             return self.impl_session(case)
         if k == "radix":
             return self.impl_radix(case)
+        if k == "sliceidx":
+            # CPython's own index adjustment (trusted-contract check of the model's sliceBounds / sliceLen)
+            res = []
+            for a, b, c in case["args"]:
+                try:
+                    ind = slice(a, b, c).indices(case["len"])
+                    res.append([ind[0], ind[1], len(range(*ind))])
+                except ValueError:
+                    res.append("err:value")
+            return {"idx": res}
         tr = self.mk(case["times"], names)
         if k == "index":
             res = []
@@ -639,6 +732,27 @@ class P(Prop):
                 out["out"] = self.dump(tr > case["n"])
             elif k == "lt":
                 out["out"] = self.dump(tr < case["n"])
+            elif k == "reverse":
+                out["out"] = self.dump(tr.reverse())
+            elif k == "makeodd":
+                tr.makeOdd()
+            elif k == "makeeven":
+                tr.makeEven()
+            elif k == "setobs":
+                o = self.mk_obs(NEW_TAG, case["ts"], names)
+                if case["form"] == "item":
+                    tr[case["i"]] = o
+                else:
+                    tr.setObs(case["i"], o)
+            elif k == "first":
+                out["ret"] = self.obs_tag(tr.getFirstObs())
+            elif k == "last":
+                out["ret"] = self.obs_tag(tr.getLastObs())
+            elif k == "split":
+                coll = tr / case["n"]
+                out["outs"] = [self.dump(coll.getTrack(i)) for i in range(coll.size())]
+            elif k == "removets":
+                out["ret"] = tr.removeObsList([self.TS(t) for t in case["ts"]])
             else:
                 raise ValueError(k)
         except BaseException as e:
@@ -682,6 +796,9 @@ class P(Prop):
             return self.requests_session(case)
         if k == "radix":
             return ["C04.radix %s" % (";".join(",".join(map(str, self.radix_digits(f))) for f in case["fields"]) or "_")]
+        if k == "sliceidx":
+            oi = lambda v: "N" if v is None else str(v)
+            return ["C04.sliceidx %d %s %s %d" % (case["len"], oi(a), oi(b), c) for a, b, c in case["args"]]
         p = self.tok_pts(obs_rows(case["times"], names))
         nm = self.tok_names(names)
         if k == "ilog":
@@ -708,6 +825,16 @@ class P(Prop):
             return ["C04.pattern %s %s %s" % (p, nm, "".join(map(str, case["pat"])) if case["pat"] else "_")]
         if k in ("gt", "lt"):
             return ["C04.%s %s %s %d" % (k, p, nm, case["n"])]
+        if k == "reverse":
+            return ["C04.reverse %s %s" % (p, nm)]
+        if k in ("makeodd", "makeeven", "first", "last"):
+            return ["C04.%s %s" % (k, p)]
+        if k == "setobs":
+            return ["C04.setobs %s %d %s" % (p, case["i"], ":".join(map(str, [NEW_TAG, case["ts"]] + feats(NEW_TAG, names))))]
+        if k == "split":
+            return ["C04.split %s %s %d" % (p, nm, case["n"])]
+        if k == "removets":
+            return ["C04.removets %s %s" % (p, ",".join(map(str, case["ts"])) if case["ts"] else "_")]
         raise ValueError(k)
 
     def decode(self, case, replies):
@@ -723,6 +850,16 @@ class P(Prop):
                 return {"err": r, "rows": [[i, list(f)] for i, f in enumerate(case["fields"])]}
             order = [] if r == "_" else [int(x) for x in r.split(",")]
             return {"rows": [[i, list(case["fields"][i])] for i in order]}
+        if k == "sliceidx":
+            res = []
+            for r in replies:
+                if r == "err:value":
+                    res.append(r)
+                else:
+                    res.append([int(x) for x in r.split(" ")])      # bad-request raises here
+                    if len(res[-1]) != 3:
+                        raise ValueError(r)
+            return {"idx": res}
         src = self.track_dict(obs_rows(case["times"], names), names)
         if k == "ilog":
             return {"j": [int(x) for x in replies[0].split(",")]}
@@ -743,6 +880,22 @@ class P(Prop):
             if r.startswith("err:"):
                 return {"err": r, "src": src}
             return {"src": self.untrack(*r.split(" "))}
+        if k in ("makeodd", "makeeven", "setobs"):
+            if r.startswith("err:"):
+                return {"err": r, "src": src}
+            return {"src": self.track_dict(self.untrack(r, "_")["pts"], names)}
+        if k in ("first", "last"):
+            if r.startswith("err:"):
+                return {"err": r, "src": src}
+            return {"ret": int(r), "src": src}
+        if k == "split":
+            if r.startswith("err:"):
+                return {"err": r, "src": src}
+            segs, tb = r.split(" ")
+            return {"outs": [] if segs == "-" else [self.untrack(sg, tb) for sg in segs.split(";")], "src": src}
+        if k == "removets":
+            p, ret = r.split(" ")
+            return {"ret": int(ret), "src": self.track_dict(self.untrack(p, "_")["pts"], names)}
         if k == "remove":
             p, ret = r.split(" ")
             after = self.track_dict(self.untrack(p, "_")["pts"], names)
@@ -1264,11 +1417,20 @@ class P(Prop):
             return self.spec_session(case, out)
         if k == "radix":
             return self.spec_radix(case, out)
+        if k == "sliceidx":
+            # CPython against itself on an actual list (small lengths): the positions start, start+step, ... are what L[a:b:c] holds
+            n = case["len"]
+            for (a, b, c), r in zip(case["args"], out["idx"]):
+                if (c == 0) != (r == "err:value"):
+                    return "slice(%s,%s,%s).indices(%d) gives %s" % (a, b, c, n, r)
+                if c != 0 and n <= 64 and [r[0] + j * c for j in range(r[2])] != list(range(n))[a:b:c]:
+                    return "slice(%s,%s,%s).indices(%d) = %s does not designate what L[a:b:c] holds" % (a, b, c, n, r)
+            return None
         names = list(case.get("names", []))
         rows = obs_rows(case["times"], names)
         n = len(rows)
         src = out.get("src")
-        inplace = k in ("insert", "sort", "remove")
+        inplace = k in ("insert", "sort", "remove", "makeodd", "makeeven", "setobs", "removets")
         if src is None:
             return "raised %s" % out.get("err")
         if src["names"] != names:
@@ -1329,6 +1491,8 @@ class P(Prop):
             if out.get("ret") != len(idx):
                 return "removeObsList(%s) returned %s" % (idx, out.get("ret"))
             return None
+        if k in self.MORE_KINDS:
+            return self.spec_more(case, out, rows, names, own)
         # ---- operators returning a new track
         want = None
         if k == "extract":
@@ -1382,6 +1546,85 @@ class P(Prop):
         if got["names"] != names:
             return "%s returns the feature-name table %s instead of %s" % (what, got["names"], names)
         return None
+
+    def spec_more(self, case, out, rows, names, own):
+        """the remaining list operations (not named by the property's statement: the oracle asks what their docstring / name designates,
+        and nothing where the arguments designate no observation)"""
+        k, n, got = case["kind"], len(rows), out["src"]["pts"]
+        if k == "reverse":
+            if "err" in out:
+                return "reverse() raised %s" % out["err"]
+            res = out["out"]
+            if res["pts"] != rows[::-1]:
+                return "reverse() of %s returns %s" % (rows, res["pts"])
+            if res["names"] != names:
+                return "reverse() returns the feature-name table %s instead of %s" % (res["names"], names)
+            return self.reads_own(res, own, "the result of reverse()")
+        if k in ("makeodd", "makeeven"):
+            if n == 0 and k == "makeodd":
+                return None if got == rows else "makeOdd() on the empty track leaves %s" % got      # nothing to drop: outside the scope
+            if "err" in out:
+                return "%s raised %s on %d observations" % (k, out["err"], n)
+            want = rows if n % 2 == (1 if k == "makeodd" else 0) else rows[:-1]
+            return None if got == want else "%s on %s leaves %s" % (k, rows, got)
+        if k == "setobs":
+            i = case["i"]
+            if not 0 <= i < n:
+                return None if (len(got) == n and sum(1 for a, b in zip(got, rows) if a != b) <= 1) else "setObs(%d) on %s leaves %s" % (i, rows, got)
+            if "err" in out:
+                return "setObs(%d) on %d observations raised %s" % (i, n, out["err"])
+            new = [NEW_TAG, case["ts"]] + feats(NEW_TAG, names)
+            want = rows[:i] + [new] + rows[i + 1:]
+            return None if got == want else "setObs(%d) on %s leaves %s" % (i, rows, got)
+        if k in ("first", "last"):
+            if n == 0:
+                return None
+            if "err" in out:
+                return "%s raised %s on %d observations" % (k, out["err"], n)
+            w = rows[0][0] if k == "first" else rows[-1][0]
+            return None if out.get("ret") == w else "get%sObs() on %s returns observation %s" % (k.capitalize(), rows, out.get("ret"))
+        if k == "split":
+            number = case["n"]
+            if number < 1:
+                return None
+            if "err" in out:
+                return "track / %d raised %s on %d observations" % (number, out["err"], n)
+            outs = out["outs"]
+            if len(outs) != number:
+                return "track / %d returns %d segments" % (number, len(outs))
+            cat = [r for d in outs for r in d["pts"]]
+            if not is_subsequence(cat, rows) or len(cat) > n:
+                return "track / %d on %s returns the segments %s: not consecutive parts of the track" % (number, rows, [d["pts"] for d in outs])
+            for j, d in enumerate(outs):
+                if d["names"] != names:
+                    return "segment %d of track / %d has the feature-name table %s instead of %s" % (j, number, d["names"], names)
+                m = self.reads_own(d, own, "segment %d of track / %d" % (j, number))
+                if m:
+                    return m
+            return None
+        if k == "removets":
+            ts = case["ts"]
+            if "err" in out:
+                return "removeObsList(timestamps %s) raised %s" % (ts, out["err"])
+            if not is_subsequence(got, rows):
+                return "removeObsList(timestamps %s) on %s leaves %s" % (ts, rows, got)
+            if len(set(ts)) < len(ts):
+                return None       # a repeated timestamp is refused by the code (nothing removed); removing is fine too
+            left = list(got)
+            gone = []
+            for r in rows:
+                if left and left[0] == r:
+                    left.pop(0)
+                else:
+                    gone.append(r)
+            if any(r[1] not in ts for r in gone):
+                return "removeObsList(timestamps %s) on %s removed %s" % (ts, rows, gone)
+            if any(t in [r[1] for r in rows] and t not in [r[1] for r in gone] for t in ts):
+                return "removeObsList(timestamps %s) on %s removed only %s" % (ts, rows, gone)
+            if out.get("ret") != len(gone):
+                return "removeObsList(timestamps %s) removed %d observations and returned %s" % (ts, len(gone), out.get("ret"))
+            return None
+        raise ValueError(k)
 
     # ---------------------------------------------------------------- shrinking / search
     def shrink_session(self, case):
